@@ -649,6 +649,22 @@ func ruleR4(r *Run) {
 				})
 				if assignsErr {
 					found = true
+					// the recover must run before the literal looks at the error result: accounting
+					// placed above it sees err == nil for a panicking call
+					rc := directRecover(info, fl.Body)
+					ast.Inspect(fl.Body, func(m ast.Node) bool {
+						be, ok := m.(*ast.BinaryExpr)
+						if !ok || (be.Op != token.NEQ && be.Op != token.EQL) || be.Pos() > rc.Pos() {
+							return true
+						}
+						if t := info.TypeOf(be.X); t != nil && types.Identical(t, types.Universe.Lookup("error").Type()) {
+							if id, ok := ast.Unparen(be.Y).(*ast.Ident); ok && id.Name == "nil" {
+								okAll = false
+								why = fmt.Sprintf("the deferred section tests the error result at %s BEFORE it calls recover(): for a panicking downstream call the error is still nil there, so the failure accounting is skipped although the caller receives an error", p.Rel(be.Pos()))
+							}
+						}
+						return true
+					})
 				}
 			}
 			if !found {
